@@ -5,6 +5,7 @@ EXTENDS TaskText, TLC, Json, IOUtils
 Tr == ndJsonDeserialize(IOEnv.TRACE)
 Verdict(r) ==
   IF "crash" \in DOMAIN r \/ "timeout" \in DOMAIN r \/ "noevent" \in DOMAIN r THEN "bad"
+  ELSE IF r.beyond_zone_data THEN "skip"      \* zoned event followed past 2037, where the zone files carry no transitions any more (C07's range)
   ELSE LET x == ExpectedAttrs(r.ev, r.cal) IN
        IF /\ Differ(r.a, x) = {}
           /\ r.ntask_a = 1
@@ -14,5 +15,6 @@ Verdict(r) ==
        THEN "ok" ELSE "bad"
 N == Len(Tr)
 BadSet == {k \in 1..N : Verdict(Tr[k]) = "bad"}
-ASSUME JsonSerialize(IOEnv.OUT, [n |-> N, nbad |-> Cardinality(BadSet), nskip |-> 0, bad |-> BadSet])
+SkipSet == {k \in 1..N : Verdict(Tr[k]) = "skip"}
+ASSUME JsonSerialize(IOEnv.OUT, [n |-> N, nbad |-> Cardinality(BadSet), nskip |-> Cardinality(SkipSet), bad |-> BadSet])
 =============================================================================
